@@ -6,11 +6,17 @@ TECH = 'bounded symbolic execution of the rustc MIR of the real functions (mirsy
 NOTE = ('trusted: rustc MIR dump, the interpreter core, the library models listed in the evidence (validated by native replay / '
         'concrete differential runs), z3; bounds as stated in the evidence file; nothing outside the bounds is claimed')
 CLAIMED = {
+ 'C01': ('schedules of the real client coroutines against a simulated MPD server: every completed request carries exactly the server reply for it, per-caller order, list error split, cancellation', '4 C01'),
+ 'C04': ('same schedules: events delivered == changed: lines the server wrote; the two recorded defects are attributed by class and re-confirmed natively', '4 C04'),
+ 'C05': ('same schedules judged by the protocol monitor of the simulated server (idle/noidle discipline, one outstanding request) plus re-idle after the timer', '4 C05'),
+ 'C08': ('schedules with one fault (EOF, read/write error, garbage, last handle dropped) at a symbolic step: every request resolves, closed flag, event stream end, surfacing, transport release', '4 C08'),
+ 'C17': ('Client::album_art coroutine against a simulated picture store for all sizes/limits/sources within the bounds: bytes, MIME, increasing offsets, fallback, absence, error propagation', '4 C17'),
+
  'C03': ('stream templates with free bytes decoded by both real connections and compared with an independent reference decoder of the response grammar on every path (plus the field-name alphabet lemma)', '4 C03'),
  'C02': ('one symbolic stream run under every two-way split, byte-wise and further segmentations on both connections, results compared pairwise by z3; prefix stability of the line and greeting grammars', '4 C02'),
  'C09': ('free byte strings and magnitude templates through both connections: no feasible path panics, reads are bounded, malformed input yields InvalidMessage', '4 C09'),
  'C10': ('every cut position of the stream templates followed by EOF on both connections: clean close iff response boundary, else UnexpectedEof, complete responses delivered first', '4 C10'),
- 'C18': ('free first lines under several segmentations through both connect functions against the greeting grammar (connected / InvalidMessage / UnexpectedEof, version verbatim); the password exchange is not covered yet', '4 C18'),
+ 'C18': ('free first lines under several segmentations through both connect functions against the greeting grammar (connected / InvalidMessage / UnexpectedEof, version verbatim); the password exchange through the real do_connect coroutine against a simulated server (OK / ACK / close / garbage)', '4 C18'),
 
  'C07': ('command names of every stated length and add_argument sequences with a fresh-bytes renderer: acceptance, rollback and one-line framing decided by z3 on every path', '4 C07'),
  'C13': ('list building and rendering for 1..N commands with symbolic command bytes and the typed list impls (Vec, tuples 1..8) with symbolically failing conversions; framing and positional pairing asserted on every path', '4 C13'),
